@@ -5,9 +5,17 @@
    token and EVERY ORDER of the candidate reductions, the cell ends with the action Yacc's rules
    prescribe, an accept/reduce clash is detected whatever the order, exactly |candidates| - 1
    reduce/reduce conflicts are recorded and each involves the winner or an earlier winner, and a
-   shift/reduce conflict is recorded iff it was resolved by default (no precedence). *)
+   shift/reduce conflict is recorded iff it was resolved by default (no precedence).
+   IOEnv.VARIANT = "lastwins" replaces the reduce/reduce rule by "the candidate met last wins" (an
+   order-dependent table, what the HashMap iteration would give without the comparison of
+   production indices): it must be refuted. *)
 EXTENDS CanonTable, Json, IOUtils
 Gs == ndJsonDeserialize(IOEnv.GRAMMARS)
+Variant == IF "VARIANT" \in DOMAIN IOEnv THEN IOEnv.VARIANT ELSE "code"
+AddReduceV(cell, p, t) ==
+  IF Variant = "lastwins" /\ cell.act[1] = "r" /\ ~(p = StartProd /\ t = EOF) /\ p # cell.act[2]
+  THEN [cell EXCEPT !.act = <<"r", p>>, !.rr = @ \cup {<<p, cell.act[2]>>}, !.sa = TRUE]
+  ELSE AddReduce(cell, p, t)
 VARIABLES gi
 mvars == <<C, pvars, gi>>
 Init == /\ gi \in 1 .. Len(Gs) /\ C = MkCtx(Gs[gi])
@@ -17,7 +25,7 @@ Spec == Init /\ [][Next]_mvars
 
 Perms(S) == {f \in [1 .. Cardinality(S) -> S] : \A i, j \in 1 .. Cardinality(S) : i # j => f[i] # f[j]}
 RECURSIVE FoldReds(_, _, _, _)
-FoldReds(cell, f, i, t) == IF i > Len(f) THEN cell ELSE FoldReds(AddReduce(cell, f[i], t), f, i + 1, t)
+FoldReds(cell, f, i, t) == IF i > Len(f) THEN cell ELSE FoldReds(AddReduceV(cell, f[i], t), f, i + 1, t)
 CellOK(a, s, t) ==
   LET reds == CellReds(a, s, t)
       spec == YaccCell(a, s, t)
